@@ -367,6 +367,7 @@ package vanguard
 //@   modifies w.mustReleaseCurrent, w.err, owned(unbox(w.current, *bytes.Buffer)), owned(w.rw.buf), #RWB
 
 //@ func (*envelopingWriter).Write
+//@   ensures[C16] w.err == nil && w.initialized && !w.writingEnvelope && !w.currentIsTrailer ==> w.remainingBytes != 0
 //@   requires[C03] w.err == nil ==> !w.rw.endWritten
 //@   ensures[C03] w.err == nil ==> !w.rw.endWritten
 //@   loop 1 invariant[C03] w.err == nil ==> !w.rw.endWritten
@@ -573,6 +574,7 @@ package vanguard
 //@ pred mustBuffer(p) = typeIs(p, connectUnaryGetClientProtocol) || typeIs(p, connectUnaryPostClientProtocol) || typeIs(p, restClientProtocol)
 
 //@ func (*responseWriter).WriteHeader
+//@   atcall[C05] parseMultiHeader: len(arg(0)) == hdrCount(uf("hdrOf", w.delegate), "Trailer")
 //@   requires rwFull(w)
 //@   loop 1 invariant[C05] -1 <= rangeindex
 //@   loop 1 invariant[C05] forall j in [0, rangeindex+1): has(respMeta.pendingTrailerKeys, canon(trailerKeys[j]))
@@ -852,6 +854,7 @@ package vanguard
 //@ |  && r.Host == old(request.Host) && r.RequestURI == old(request.RequestURI)
 
 //@ func (*Transcoder).ServeHTTP
+//@   atcall[C13,C02] (*operation).handle: !(op.client.protocol.protocol() == op.server.protocol.protocol() && ufs("codecName", op.client.codec) == ufs("codecName", op.server.codec) && op.client.reqCompression.Name() == op.server.reqCompression.Name())
 //@   dispatch (net/http.Handler).ServeHTTP: opaque
 //@   requires t != nil && validReq(request) && writer != nil && extern(writer) && !typeIs(writer, *bytes.Buffer)
 //@   track served = (net/http.Handler).ServeHTTP
@@ -1202,3 +1205,21 @@ package vanguard
 //@   requires[C14] owned(src)
 //@   ensures[C04,C09] statusCode != 200 ==> result != nil && code(result) != 0
 //@   ensures[C04] statusCode == 200 ==> result == nil
+
+// C05: Connect unary trailers ("Trailer-" prefixed headers) are extracted into the end of the RPC on
+// both the success and the error path.
+//@ func connectExtractUnaryTrailers
+//@   ensures[C05] result != nil
+//@   modifies $map|map[string][]string
+//@ func (connectUnaryServerProtocol).extractProtocolResponseHeaders
+//@   requires headers != nil
+//@   ensures[C05] statusCode != 200 ==> r0.end != nil && r0.end.trailers != nil
+//@   ensures[C05] statusCode == 200 ==> r0.end == nil && r0.pendingTrailers != nil
+// C04: a gRPC-Web trailer line is split at its first colon only (values may contain colons): the only
+// Split in decodeEndFromMessage is the one that separates the lines.
+//@ func (grpcWebServerProtocol).decodeEndFromMessage
+//@   requires buffer != nil
+//@   requires[C14] owned(buffer)
+//@   track splits = bytes.Split
+//@   track cuts = bytes.Cut
+//@   ensures[C04] splits == 1
